@@ -249,7 +249,10 @@ def evaluate__mod_operator(self: XPathToken, context: ta.ContextType = None) \
         elif isinstance(op1, int) and isinstance(op2, int):
             result = abs(op1) % abs(op2)
             return -result if op1 < 0 else result
-        return op1 % op2  # type: ignore[operator]
+        result = op1 % op2  # type: ignore[operator]
+        if isinstance(result, decimal.Decimal) and not result and result.is_signed():
+            return result.copy_abs()  # xs:decimal has no negative zero
+        return result
     except TypeError as err:
         raise self.error('FORG0006', err) from None
     except (ZeroDivisionError, decimal.InvalidOperation):
